@@ -64,6 +64,10 @@ CLAIMED = {
             "Exploration: 60 000 generated histories per quick run (2-12 events: version markers, replacing tables with 0-2 imports resolved against a catalog holding the exact / a newer / an older / no version and max_id absent / 0 / exact / smaller / larger, appending tables, user values using any ID that carries the wanted text, placeholder slots, $0, table-shaped structs below top level), rendered in binary and in text with $n spellings; ion-go must return the reference resolution, the right number of user values, the right SymbolTable().MaxID() after every value, and an error exactly for an unresolvable import.",
             "Undefined local slots (null / non-string elements of symbols) and gaps in shared tables are not generated: ion-go deliberately represents them as the text \"\" (DESIGN C09/C10), which the statement does not cover. Duplicate imports / symbols fields and typed nulls in table fields are not generated (C06). Trusts the reference decoders and the running model (which must agree, else exit 2).",
             "DESIGN.md section 5, C10; section 9.3"),
+    "C11": (PBT + "; reference-decoder oracle over the emitted bytes (declared imports, ID minimality, local-symbol minimality, resolvability with and without the catalog) + writer-call outcome oracle for fixed tables",
+            "Exploration: 48 000 (entry point, shared tables, fixed locals, values) cases per quick run over NewBinaryWriter(ssts), NewBinaryWriterLST, MarshalBinary(ssts) and MarshalBinaryLST with 0-3 shared tables (overlapping text, system-symbol text, Adjust-ed max_id), symbols drawn half from inside and half from outside the tables; the reference decoder checks imports (name, version, max_id, order), lowest-ID use, no redundant / duplicate / unused local symbol, decodability with and without the catalog and value equality (also through ion-go's reader with the catalog); for fixed tables the first call that consumes outside text must fail, all later calls fail, earlier ones succeed and the bytes hold exactly the completed values.",
+            "The empty text is exempt from the by-name / minimality assertions (never indexed by name, by design). $n-shaped text is not used. Trusts the reference decoder.",
+            "DESIGN.md section 5, C11"),
     "C19": ("fault enumeration + property-based testing with pgregory.net/rapid: every single split point / every read-fault offset / every failing Write-call index enumerated for a fixed set of documents and call sequences, random plans elsewhere; metamorphic oracle (any delivery plan vs whole buffer) and validity oracles (fault reported, sticky, accepted bytes a prefix)",
             "Fault enumeration: for ~100 fixed documents (hand-written lookahead-hungry texts/binaries + deterministic generator examples) every split point x {EOF alone, EOF with data} x {full, container-skipping traversal}, and a read failure at every byte offset x {alone, with data} x {persistent, one-off} x {whole, byte-at-a-time}; for 40 fixed call sequences x 4 writer configurations a write failure at every Write-call index x {nothing, half accepted} x {persistent, one-off}; plus ~17 000 random (document, plan) / (sequence, fault) cases per quick run including documents straddling bufio's 4096-byte buffer and corrupted documents.",
             "Faults are injected in the io.Reader / io.Writer the harness hands to ion-go (no hooks). A read plan returns at most one (0,nil) in a row. One-off (transient) faults are part of the fault model: the reader/writer must still report them. Trusts the harness's plan reader / fault writer, rapid, Go.",
